@@ -87,7 +87,7 @@ Proof. intros a0; destruct a0; row_valf; apply cvt_f_row. Qed.
 
 (** compares *)
 Ltac open_rowc := intros d r Hd Hr;
-  cbn [vdesc_f Z.leb Z.compare Pos.compare Pos.compare_cont andb CompOpp Z.eqb Pos.eqb] in Hd;
+  cbn [vdesc_f Z.leb Z.compare Pos.compare Pos.compare_cont andb orb CompOpp Z.eqb Pos.eqb] in Hd;
   unfold x_fcmp, gf_vop3a, cf_vop3a in Hd; unfold vrow_f, fvop3a_row, fcmp_row in Hr;
   cbv beta iota zeta in Hd, Hr; apply some_inj in Hd; apply some_inj in Hr; subst d r.
 Ltac fcmp_fin := cbv [fcompare]; vrel_start; split; [exact I|];
@@ -98,12 +98,12 @@ Proof.
   intros op Hin. cbn [In] in Hin.
   repeat (destruct Hin as [<-|Hin]; [open_rowc; fcmp_fin|]). contradiction.
 Qed.
-Lemma r_c_vopc_f : forall op, In op [65; 66; 67; 68; 69; 70] -> row_ok_f CDNA3 F_VOPC op.
+Lemma r_c_vopc_f : forall op, In op [65; 66; 67; 68; 69; 70; 75; 78] -> row_ok_f CDNA3 F_VOPC op.
 Proof.
   intros op Hin. cbn [In] in Hin.
   repeat (destruct Hin as [<-|Hin]; [open_rowc; fcmp_fin|]). contradiction.
 Qed.
-Lemma r_g_vop3a_f : forall op, In op [65; 68; 78] -> row_ok_f GCN3 F_VOP3A op.
+Lemma r_g_vop3a_f : forall op, In op [65; 68; 77; 78] -> row_ok_f GCN3 F_VOP3A op.
 Proof.
   intros op Hin. cbn [In] in Hin.
   repeat (destruct Hin as [<-|Hin]; [open_rowc; fcmp_fin|]). contradiction.
